@@ -641,7 +641,17 @@ def drive_poly(mon: Monitor, rng: random.Random, n: int) -> None:
                   lambda: {"N": N, "err": float(np.abs(got - want).max()), "scale": sc}, key="poly-heldout",
                   cls="biquadratic" if N >= 9 else "bilinear" if N >= 4 else "affine")
         A = Affine(rng.uniform(0.5, 2), rng.choice([0, 0, 0.2]), rng.uniform(-10, 10), rng.choice([0, 0, -0.1]), rng.uniform(0.5, 2), rng.uniform(-10, 10))
-        p.with_input_transform(A)
+        p1 = p.with_input_transform(A)
+        # views of views: crop then zoom then rotate - each step is judged against the polynomial it was applied to (post_with_input_transform), so the order of composition matters
+        A2 = Affine.translation(rng.uniform(-20, 20), rng.uniform(-20, 20)) * Affine.scale(rng.choice([2, 0.5, 3, 1.5]), rng.choice([2, 0.25, 1]))
+        A3 = Affine.rotation(rng.choice([90, 30, -45, 180])) * Affine.translation(rng.uniform(-5, 5), 0)
+        try:
+            p2 = p1.with_input_transform(A2)
+            p2.with_input_transform(A3)
+            p1.with_input_transform(A3).with_input_transform(A2)
+            mon.obs["poly2d_input_transform_chains"] += 2
+        except Exception:
+            pass
     # regular grids: one control point sits exactly at the centroid (centre of an odd x odd grid, centre of a quincunx)
     for gx_, gy_ in ((3, 3), (5, 5), (3, 5), (7, 3)):
         xs, ys = np.meshgrid(np.linspace(0, 100 * (gx_ - 1), gx_), np.linspace(0, 80 * (gy_ - 1), gy_))
